@@ -19,6 +19,11 @@ needed to state them over the source texts the readers accept:
 
   about which only `HOK h` is assumed; `canonStage h` applies it to the threads
   text; `parseStageH h` = the real parser's `Stage` (reader, then `canonStage`).
+* `pResListR rd` … `pStageAllR rd`: the readers of the trailing clauses and of the stage with the
+  reader of `mem_gb` / `vmem_gb` a parameter; `parseStage32` = the stage reader with `readGB32Tok`
+  (the literal rounded to the nearest float32 first, as the REAL parser does; `parseStage` is the
+  instance with the exact `readGBTok`: `Proofs.FormatStageRange32.parseStage_eq`);
+  `stageMB32Valid`: both values below 256 GB in magnitude (F29).
 * `threadsTokOK`: the token texts `float_32` accepts (what `readF32` returns on
   tokens in the range of the tokenizer).
 
